@@ -129,11 +129,16 @@ type History struct {
 	MaxNextID        uint64
 	CreatedNames     map[string]int
 	Commits          int
+	// IDBase remembers the base index each committed segment ID was committed with
+	IDBase map[uint64]uint64
 }
 
 func (h *History) clone() *History {
 	n := &History{EverCommittedIDs: make(map[uint64]bool, len(h.EverCommittedIDs)), MaxNextID: h.MaxNextID,
-		CreatedNames: make(map[string]int, len(h.CreatedNames)), Commits: h.Commits}
+		CreatedNames: make(map[string]int, len(h.CreatedNames)), Commits: h.Commits, IDBase: make(map[uint64]uint64, len(h.IDBase))}
+	for k, v := range h.IDBase {
+		n.IDBase[k] = v
+	}
 	for k, v := range h.EverCommittedIDs {
 		n.EverCommittedIDs[k] = v
 	}
@@ -165,7 +170,7 @@ type Disk struct {
 
 func New(beh Behaviour) *Disk {
 	return &Disk{beh: beh, files: map[string]*inode{}, durDir: map[string]*inode{}, meta: &MetaState{Stable: map[string][]byte{}},
-		Hist: &History{EverCommittedIDs: map[uint64]bool{}, CreatedNames: map[string]int{}}, NCalls: map[Kind]int{}}
+		Hist: &History{EverCommittedIDs: map[uint64]bool{}, CreatedNames: map[string]int{}, IDBase: map[uint64]uint64{}}, NCalls: map[Kind]int{}}
 }
 
 func (d *Disk) SetHook(h Hook) { d.mu.Lock(); d.hook = h; d.mu.Unlock() }
@@ -593,7 +598,13 @@ func (d *Disk) checkIDsLocked(st types.PersistentState) {
 		if s.ID >= st.NextSegmentID {
 			d.IDViolations = append(d.IDViolations, fmt.Sprintf("committed segment ID %d >= NextSegmentID %d", s.ID, st.NextSegmentID))
 		}
-		if !prevIDs[s.ID] && h.EverCommittedIDs[s.ID] {
+		// A segment may come back only as the very same segment: the rollback of a
+		// transaction whose post-commit step failed re-commits the previous segment list.
+		// Same ID, same base index, and its file was never unlinked - no segment is
+		// *created* there. Anything else is a reuse of an identity.
+		_, fileStillThere := d.files[fmt.Sprintf("%020d-%016x.wal", s.BaseIndex, s.ID)]
+		sameSegment := h.IDBase != nil && h.IDBase[s.ID] == s.BaseIndex && fileStillThere
+		if !prevIDs[s.ID] && h.EverCommittedIDs[s.ID] && !sameSegment {
 			d.IDViolations = append(d.IDViolations, fmt.Sprintf("segment ID %d re-introduced after it had left the committed state", s.ID))
 		}
 		if !prevIDs[s.ID] && s.ID < h.MaxNextID && !h.EverCommittedIDs[s.ID] && h.Commits > 0 {
@@ -602,6 +613,15 @@ func (d *Disk) checkIDsLocked(st types.PersistentState) {
 	}
 	for id := range seen {
 		h.EverCommittedIDs[id] = true
+	}
+	if h.IDBase == nil {
+		h.IDBase = map[uint64]uint64{}
+	}
+	for _, sg := range st.Segments {
+		if b, ok := h.IDBase[sg.ID]; ok && b != sg.BaseIndex {
+			d.IDViolations = append(d.IDViolations, fmt.Sprintf("segment ID %d committed with base index %d after it had been committed with base index %d", sg.ID, sg.BaseIndex, b))
+		}
+		h.IDBase[sg.ID] = sg.BaseIndex
 	}
 	if st.NextSegmentID > h.MaxNextID {
 		h.MaxNextID = st.NextSegmentID
